@@ -43,7 +43,7 @@ pub fn run(ctx: &mut Ctx) {
     for (n, ok) in r9::selftest(ctx.shard == 0) {
         ctx.selftest(&n, ok);
     }
-    ctx.require(&["annex_g", "exact_vs_reference", "input_Z_ne_1", "input_affine", "a=N-1", "b=N-1", "a=1", "bilinearity", "nondegenerate", "order_N", "g2_Z_in_Fp2", "infinity_input", "consecutive_negated_P", "consecutive_negated_Q"]);
+    ctx.require(&["annex_g", "exact_vs_reference", "input_Z_ne_1", "input_affine", "a=N-1", "b=N-1", "a=1", "bilinearity", "nondegenerate", "order_N", "g2_Z_in_Fp2", "infinity_input", "consecutive_negated_P", "consecutive_negated_Q", "crafted_stored_Z_limbs"]);
     let pr = r9::params();
     // --- Annex value of g = e(P1, Ppub-s): full 384 bytes against the reference, first coefficient against the standard
     if ctx.shard == 0 {
@@ -135,6 +135,53 @@ pub fn run(ctx: &mut Ctx) {
         }
         if i % 40 == 0 {
             ctx.sample(json!({"pairing_case": w}));
+        }
+    }
+    // --- representatives whose STORED (Montgomery) Z limbs are boundary words: integer 1, unit limbs, Montgomery one with
+    // a single limb moved by one (a comparison that skips a limb sees "Z = 1"), for G1, and for both components of G2's Z
+    {
+        let mont_one = r9::to_mont(&BigUint::one());
+        let mut zs: Vec<[u64; 4]> = vec![[1, 0, 0, 0], [0, 1, 0, 0], [0, 0, 1, 0], [0, 0, 0, 1], [u64::MAX, 0, 0, 0], [u64::MAX, u64::MAX, 0, 0], [1, 1, 1, 1]];
+        for j in 0..4 {
+            for d in [1u64, u64::MAX, 0x100, 0u64.wrapping_sub(0x100)] {
+                let mut a = mont_one;
+                a[j] = a[j].wrapping_add(d);
+                zs.push(a);
+            }
+        }
+        zs.push(r9::to_limbs(&(&pr.p - 1u32)));
+        let zs: Vec<[u64; 4]> = zs.into_iter().filter(|z| r9::from_limbs(z) < pr.p && r9::from_limbs(z) != BigUint::from(0u32)).collect();
+        let mut pz = ctx.prng("craftedZ");
+        for (idx, zl) in zs.iter().enumerate() {
+            let sub = pz.next();
+            if !ctx.mine(idx as u64) {
+                continue;
+            }
+            let mut p = Prng::new(sub, "cz");
+            let a = if idx % 2 == 0 { BigUint::one() } else { rand_scalar(&mut p, &pr.n) };
+            let b = if idx % 3 == 0 { BigUint::one() } else { rand_scalar(&mut p, &pr.n) };
+            let pa = r9::g1_mul(&a, &r9::g1_gen()).unwrap();
+            let qa = r9::g2_mul(&b, &r9::g2_gen()).unwrap();
+            let l = r9::from_mont(zl);
+            let e = r9::f12bytes(&r9::pairing(&pa, &qa).unwrap());
+            let zero = BigUint::from(0u32);
+            let cases: Vec<(&str, gm_sm9::points::Point, gm_sm9::points::TwistPoint)> = vec![
+                ("G1_Z", r9::lib_g1(&pa, &l), r9::lib_g2(&qa, &(BigUint::one(), zero.clone()))),
+                ("G2_Z_real", r9::lib_g1(&pa, &BigUint::one()), r9::lib_g2(&qa, &(l.clone(), zero.clone()))),
+                ("G2_Z_imag", r9::lib_g1(&pa, &BigUint::one()), r9::lib_g2(&qa, &(zero.clone(), l.clone()))),
+                ("G2_Z_real_plus_u", r9::lib_g1(&pa, &BigUint::one()), r9::lib_g2(&qa, &(l.clone(), BigUint::one()))),
+                ("G2_Z_one_plus_imag", r9::lib_g1(&pa, &BigUint::one()), r9::lib_g2(&qa, &(BigUint::one(), l.clone()))),
+            ];
+            for (nm, pp, qq) in cases {
+                ctx.eval();
+                ctx.class("crafted_stored_Z_limbs");
+                ctx.distinct("craftedZ", &[nm.as_bytes(), &r9::b32(&r9::from_limbs(zl))]);
+                let w = json!({"which": nm, "stored_Z_limbs_be": hex::encode(r9::b32(&r9::from_limbs(zl))), "a": hex::encode(r9::b32(&a)), "b": hex::encode(r9::b32(&b))});
+                match guard(|| hk::pairing(&qq, &pp).to_bytes_be()) {
+                    Outcome::Ret(v) if v == e => {}
+                    o => ctx.violation(&format!("pairing:crafted_stored_Z_limbs:{}:{}", nm, if o.is_ret() { "value-differs-from-reference" } else { o.class() }), json!({"case": w})),
+                }
+            }
         }
     }
     // --- identities evaluated inside the library on many more pairs
